@@ -247,6 +247,55 @@ func residErrCase(c *hx.Rand) shapeCase {
 		rq: fga.Req{Obj: "doc:" + placeholder, Rel: "viewer", User: me}}}
 }
 
+// prefixCase: a tupleset relation that admits two parent types whose NAMES share a prefix, the longer one listed
+// first and carrying a condition (`parent: [team_archive with c1, team]`): the edge that supplies the condition
+// filter for the parent-tuple read must be chosen by type-name equality, not by prefix.
+func prefixCase(c *hx.Rand) shapeCase {
+	u := fga.Restr{Typ: "user"}
+	const me = "user:x"
+	long, short := "team_archive", "team"
+	if c.Chance(1, 3) {
+		long, short = "teams", "team"
+	}
+	restrs := []fga.Restr{{Typ: long, Cond: "c1"}, {Typ: short}}
+	if c.Chance(1, 4) {
+		restrs = []fga.Restr{{Typ: short}, {Typ: long, Cond: "c1"}}
+	}
+	m := &fga.Model{Types: []*fga.TypeDef{{Name: "user"},
+		{Name: short, Rels: []*fga.RelDef{{Name: "member", Rewrite: this(), Restrs: []fga.Restr{u}}}},
+		{Name: long, Rels: []*fga.RelDef{{Name: "member", Rewrite: this(), Restrs: []fga.Restr{u}}}},
+		{Name: "doc", Rels: []*fga.RelDef{
+			{Name: "parent", Rewrite: this(), Restrs: restrs},
+			{Name: "viewer", Rewrite: ttu("parent", "member")}}}},
+		Conds: []*fga.CondDef{{Name: "c1", Param: "x", Op: "lt", Const: 10}}}
+	var tuples []fga.Tuple
+	n := 4 + c.Intn(8)
+	for i := 1; i <= n; i++ {
+		o := docID(i)
+		switch c.Intn(4) {
+		case 0, 1: // unconditioned parent of the short type
+			p := fmt.Sprintf("%s:s%d", short, 1+c.Intn(3))
+			tuples = append(tuples, fga.Tuple{Obj: o, Rel: "parent", User: p})
+		case 2: // conditioned parent of the long type, condition true / false
+			p := fmt.Sprintf("%s:l%d", long, 1+c.Intn(3))
+			tuples = append(tuples, fga.Tuple{Obj: o, Rel: "parent", User: p, Cond: "c1", Ctx: []fga.KV{{K: "x", V: hx.Pick(c, []int{5, 50})}}})
+		default: // both
+			tuples = append(tuples, fga.Tuple{Obj: o, Rel: "parent", User: fmt.Sprintf("%s:s%d", short, 1+c.Intn(3))},
+				fga.Tuple{Obj: o, Rel: "parent", User: fmt.Sprintf("%s:l%d", long, 1+c.Intn(3)), Cond: "c1", Ctx: []fga.KV{{K: "x", V: 50}}})
+		}
+	}
+	for i := 1; i <= 3; i++ {
+		if c.Chance(2, 3) {
+			tuples = append(tuples, fga.Tuple{Obj: fmt.Sprintf("%s:s%d", short, i), Rel: "member", User: me})
+		}
+		if c.Chance(2, 3) {
+			tuples = append(tuples, fga.Tuple{Obj: fmt.Sprintf("%s:l%d", long, i), Rel: "member", User: me})
+		}
+	}
+	return shapeCase{kind: "prefix", craftedCase: craftedCase{m: m, tuples: tuples,
+		rq: fga.Req{Obj: "doc:" + placeholder, Rel: "viewer", User: me}}}
+}
+
 // higherCase: a store `pre`, and the store after one write that deletes a tuple behind a listed object and adds
 // a tuple that lists a new object.
 func higherCase(c *hx.Rand) shapeCase {
@@ -322,6 +371,10 @@ func shapeCases(r *hx.Rand, tier string) []shapeCase {
 	}
 	for i := 0; i < 3*scale; i++ {
 		out = append(out, higherCase(c.Fork()))
+	}
+	// drawn after all the others so that their streams stay what they were
+	for i := 0; i < 3*scale; i++ {
+		out = append(out, prefixCase(c.Fork()))
 	}
 	return out
 }
